@@ -16,6 +16,7 @@ import (
 	"strings"
 
 	"gitlab.com/gomidi/midi/v2/internal/verifh/engine"
+	"gitlab.com/gomidi/midi/v2/internal/verifh/faultio"
 	"gitlab.com/gomidi/midi/v2/internal/verifh/refsmf"
 	"gitlab.com/gomidi/midi/v2/internal/verifh/smfgen"
 	sp "gitlab.com/gomidi/midi/v2/internal/verifh/smfspace"
@@ -349,6 +350,7 @@ func main() {
 	})
 	ctx.Jobs("manytracks", 1, func(int) { manyTracks() })
 	ctx.Jobs("value-sweeps", 1, func(int) { valueSweeps() })
+	ctx.Jobs("two-readers", 1, func(int) { twoReaders() })
 	ctx.Sample(map[string]interface{}{"file": "MThd fmt1 2 tracks div 96 | XFIH(5) | MTrk: 0:NoteOn0 128:NoteOn0~ 0:EOT | MTrk filler", "meaning": "alien chunk before the first track, running status"})
 	ctx.Set("token_alphabet", len(tokens))
 	ctx.Set("delta_encodings", len(deltas))
@@ -408,6 +410,91 @@ func valueSweeps() {
 	sweep("meta-type", b, e)
 	b, e = smfgen.LongSweep()
 	sweep("long-payload", b, e)
+}
+
+// twoReaders: two files decoded by two threads that are switched inside their
+// Read calls (every schedule with at most two switches): each result must be
+// the one the file gives when decoded alone.
+func twoReaders() {
+	toks := smfgen.Tokens()
+	dls := smfgen.Deltas()
+	var files [][]byte
+	var exps []*refsmf.File
+	for _, pick := range [][]int{{0, 1}, {4, 2}, {5, 0}, {14, 3}, {2, 3}} {
+		var seq []smfgen.Timed
+		for k, ti := range pick {
+			seq = append(seq, smfgen.Timed{T: &toks[ti], D: &dls[(k+1)%4]})
+		}
+		body, evs, ok := smfgen.Track(seq, &dls[1])
+		if !ok {
+			continue
+		}
+		f, e := smfgen.File(smfgen.BaseShape(), body, evs)
+		files = append(files, f)
+		exps = append(exps, e)
+	}
+	var iv engine.Interleaver
+	for a := range files {
+		for b := range files {
+			if a == b && a > 0 {
+				continue
+			}
+			var diffs [2]string
+			run := func(first, i, j int) {
+				diffs = [2]string{"?", "?"}
+				body := func(k int, f []byte, e *refsmf.File) func(yield func()) {
+					return func(yield func()) {
+						var got *smf.SMF
+						var err error
+						c := engine.Catch(func() { got, err = smf.ReadFrom(&faultio.YieldReader{R: bytes.NewReader(f), Yield: yield}) })
+						switch {
+						case c.Panicked:
+							diffs[k] = "panic " + c.Value
+						case err != nil:
+							diffs[k] = "error " + err.Error()
+						default:
+							if len(got.Tracks) != len(e.Tracks) {
+								diffs[k] = "track count"
+								return
+							}
+							diffs[k] = ""
+							for t := range e.Tracks {
+								if d := refsmf.FirstDiff(e.Tracks[t], sp.FromTrack(got.Tracks[t])); d != "" {
+									diffs[k] = d
+								}
+							}
+						}
+					}
+				}
+				iv.Run(first, i, j, body(0, files[a], exps[a]), body(1, files[b], exps[b]))
+			}
+			run(0, -1, -1)
+			ya, yb := iv.Yields()
+			for first := 0; first < 2; first++ {
+				n1, n2 := ya, yb
+				if first == 1 {
+					n1, n2 = yb, ya
+				}
+				for i := 1; i <= n1; i++ {
+					for j := -1; j <= n2; j++ {
+						if j == 0 {
+							continue
+						}
+						run(first, i, j)
+						ctx.Eval()
+						ctx.Add("two_reader_schedules", 1)
+						if diffs[0] != "" || diffs[1] != "" {
+							if ctx.SigCount("concurrent-readers:interference") < 5 {
+								ctx.Violation("concurrent-readers:interference", map[string]interface{}{"kind": "two-readers", "file_a": engine.Hex(files[a]), "file_b": engine.Hex(files[b]),
+									"first": first, "switch_first_at_read": i, "switch_second_at_read": j,
+									"what": fmt.Sprintf("two files decoded by two threads switched inside Read calls: A: %q B: %q (each decodes correctly alone)", diffs[0], diffs[1])})
+							}
+						}
+					}
+				}
+			}
+		}
+	}
 }
 
 // manyTracks: boundary files around the int16 track counter.
